@@ -143,6 +143,23 @@ pub fn forget_h<Tr: ?Sized + Trait, B: Backend, E: Elem + SatisfyTraits<Tr>>(p: 
             }
             keep = s;
             vp_assert!(v.len() >= s && v.len() <= len, "VP: forgotten range iterator left an impossible length");
+            if !E::ZST && !E::TRACKED && op != FOp::Splice {
+                // types without drop glue have no registry entry: an item that was taken (it now belongs to the caller)
+                // must not be visible in the vector any more
+                let t = v.downcast_ref::<E>().unwrap();
+                let sl = t.as_slice();
+                let chk = |q: usize| {
+                    if q < sl.len() {
+                        vp_assert!(!(f > 0 && sl[q].id() == m.id[s]) && !(b > 0 && sl[q].id() == m.id[e - 1]), "VP: an element that was moved out is still visible");
+                    }
+                };
+                #[cfg(kani)]
+                chk(any_usize());
+                #[cfg(not(kani))]
+                for q in 0..sl.len() {
+                    chk(q);
+                }
+            }
         }
         FOp::DrainItem | FOp::SpliceItem => {
             let s = p.start.get();
